@@ -176,7 +176,12 @@ class World(object):
                                                                   full_output=True)
                 FlowCal.excel_ui.add_beads_stats(t, bs, mo)
             self._beads_cache[key] = (t, bs, fx, mo)
-        return self._beads_cache[key]
+        t, bs, fx, mo = self._beads_cache[key]
+        # every caller gets its own copy of the transformation functions, as a run of the workflow makes them anew:
+        # whatever one table's processing (or a hand composition) leaves in them must not reach the reference it is
+        # compared with
+        import copy
+        return t, bs, copy.deepcopy(fx), mo
 
     # ------------------------------------------------------------------ samples
     SPELL = {'channel': ['Channel', 'channel', 'CHANNEL', ' Channel '], 'rfi': ['RFI', 'rfi', ' Rfi '], 'au': ['a.u.', 'au', 'A.U.', 'AU'],
